@@ -1,3 +1,4 @@
+\* variant: a worker's [re-check, Add, callback, Protect] and Discard exclude each other
 SPECIFICATION Spec
 CONSTANTS
   Peers = {"p1", "p2"}
@@ -6,18 +7,17 @@ CONSTANTS
   Workers = {"w1", "w2"}
   Callers = {}
   Delay = 1
-  MaxRounds = 3
+  MaxRounds = 2
   MaxDrops = 1
-  MaxInbound = 0
+  MaxInbound = 1
   MaxFail = 0
   MaxCalls = 0
   MaxApi = 0
   WithGC = TRUE
   AtomicPeers = FALSE
   SignedWant = FALSE
-  Serialized = FALSE
+  Serialized = TRUE
   DirectAPI = FALSE
-VIEW state
 CHECK_DEADLOCK FALSE
-INVARIANTS TypeOK
-PROPERTIES DialRespectsBackoff
+VIEW state
+INVARIANTS TypeOK SizeBound ReportedExactlyOnce ReportedInOrder ViewConsistent InSetConnected ProtectedInSetOrPending
